@@ -218,6 +218,30 @@ def r_retrieve_tree(repo, rep, R, what):
         no_left = any(pol and c[0] == 'cmp' and c[1] in ('==', 'is') and A(item, 'left') in (c[2], c[3]) and (N('NULL') in (c[2], c[3]) or C(None) in (c[2], c[3]))
                       for c, pol, _ in st_.conds) or any((not pol) and c == A(item, 'left') for c, pol, _ in st_.conds)
         if not no_left:
+            # ... or through a predicate of the item type whose body says so: `bool is_leaf() const { return left == nullptr && .. }`
+            for c, pol, _ in st_.conds:
+                if pol and c[0] == 'call' and c[1][0] == 'attr' and c[1][1] == item and not c[2]:
+                    try:
+                        from . import cxx as _cxx
+                        _cxx.load(repo)
+                        body = _cxx.RECORD_METHODS.get(('cell_item', c[1][2]))
+                    except Exception:
+                        body = None
+                    if body is not None:
+                        txt = _cxx.show(body) if hasattr(_cxx, 'show') else repr(body)
+                        conj = [body] if not (body[0] == 'bin' and body[1] == '&&') else None
+                        parts = []
+                        stack_ = [body]
+                        while stack_:
+                            b_ = stack_.pop()
+                            if b_[0] == 'bin' and b_[1] == '&&':
+                                stack_ += [b_[2], b_[3]]
+                            else:
+                                parts.append(b_)
+                        if any(b_[0] == 'bin' and b_[1] == '==' and any(x_[0] == 'mem' and x_[-1] == 'left' for x_ in (b_[2], b_[3]))
+                               and any(x_[0] == 'lit' or x_ == ('var', 'nullptr') or 'null' in repr(x_).lower() for x_ in (b_[2], b_[3])) for b_ in parts):
+                            no_left = True
+        if not no_left:
             from .core import StructuralViolation
             raise StructuralViolation(R, '%s:%s retrieve_tree' % (REL, rt.fn.lineno), 'retrieve_tree:leaf:has-no-children',
                                       'retrieve_tree rebuilds a terminal on a path where the item may have a left child (%s): a unary item is returned as a leaf with the '
